@@ -243,6 +243,27 @@ func genTextC14(cfg Config, emit Emit) error {
 	for i := 0; i < len(rsaPool) && i < 4; i++ {
 		emit("keyfmt", []string{fmt.Sprintf("rsa%d", i)}, "keyfmt", true)
 	}
+	// exhaustive: every string over an 8-symbol alphabet (both flavours' special characters, padding, a line
+	// break, letters whose sextets leave trailing bits) up to length 4 (5 thorough), under each of the four
+	// base64 multibase prefixes
+	maxLen := 4
+	if cfg.Thorough() {
+		maxLen = 5
+	}
+	alpha := []byte{'A', 'B', '/', '_', '-', '+', '=', '\n'}
+	var rec func(cur []byte)
+	rec = func(cur []byte) {
+		for _, p := range []byte("mMuU") {
+			emit("mbdec", []string{hexTok(append([]byte{p}, cur...))}, "mbdec-exhaustive", len(cur) > 0)
+		}
+		if len(cur) == maxLen {
+			return
+		}
+		for _, c := range alpha {
+			rec(append(cur[:len(cur):len(cur)], c))
+		}
+	}
+	rec(nil)
 	n := 300
 	if cfg.Thorough() {
 		n = 6000
@@ -366,6 +387,26 @@ func genTextC13(cfg Config, emit Emit) error {
 		}
 		emit("cidfmt", []string{hexTok(randBytes(r, l))}, "cidfmt", l > 0)
 	}
+	// exhaustive: every CID byte string over {00,01,02,04,12,20,80,82} up to length 5 (6 thorough) - versions,
+	// the CAR codec's varint 82 04, non-minimal and unterminated varints, digest lengths against the rest,
+	// trailing bytes, the CIDv0 prefix - as multibase m through delegation.Parse
+	maxLen := 5
+	if cfg.Thorough() {
+		maxLen = 6
+	}
+	alpha := []byte{0x00, 0x01, 0x02, 0x04, 0x12, 0x20, 0x80, 0x82}
+	var rec func(cur []byte)
+	rec = func(cur []byte) {
+		s, _ := multibase.Encode(multibase.Base64, cur)
+		emit("dlgparse", []string{hexTok([]byte(s))}, "dlgparse-exhaustive", len(cur) > 0)
+		if len(cur) == maxLen {
+			return
+		}
+		for _, c := range alpha {
+			rec(append(cur[:len(cur):len(cur)], c))
+		}
+	}
+	rec(nil)
 	for i := 0; i < 6*n; i++ {
 		payload := randBytes(r, i%24)
 		var c cid.Cid
